@@ -367,7 +367,7 @@ func (w *worker) verify() {
 	if d != w.rd.jobs[h.job].exp {
 		w.rd.fail("c17-live-handle-changed", map[string]any{"t": w.t, "job": h.job,
 			"differs": d.diff(w.rd.jobs[h.job].exp),
-			"what": "the data of an unreleased Garbled changed while other goroutines were garbling"})
+			"what":    "the data of an unreleased Garbled changed while other goroutines were garbling"})
 	}
 }
 
